@@ -176,7 +176,7 @@ Section Partition.
       destruct (cs b0) as [sb stb] eqn:Ecs.
       assert (Hstb : stb t = Pending o).
       { specialize (R4 t b0). rewrite Ecs in R4. cbn in R4. rewrite R4, Hcur, Hob. cbn. rewrite Nat.eqb_refl. exact Est. }
-      destruct (set_step_local s o Ek) as (L1 & L2 & L3). destruct (set_step_local sb o Ek) as (M1 & M2 & M3).
+      destruct (set_step_local s o k Ek) as (L1 & L2 & L3). destruct (set_step_local sb o k Ek) as (M1 & M2 & M3).
       assert (Hmem : zmem k s = zmem k sb) by (rewrite R1; fold b0; rewrite Ecs; reflexivity).
       assert (Hres : snd (sstep SetSpec s o) = snd (sstep SetSpec sb o)) by (cbn; rewrite L1, M1, Hmem; reflexivity).
       set (cs' := fun b => if Nat.eqb b b0 then (fst (set_step sb o), upd stb t (Linearized o (snd (set_step sb o)))) else cs b).
@@ -238,8 +238,8 @@ Section Partition.
     lp_valid SetSpec tr.
   Proof.
     intros HS HB. unfold lp_valid, lp_init.
-    eapply (partition_sim tr (cs := fun _ => lp_init) (cur := fun _ => None) (ph := fun _ => TIdle)); auto.
-    repeat split; auto. intros t H. exfalso. apply H. reflexivity.
+    eapply partition_sim with (cs := fun _ => (@lp_init SetSpec)) (cur := fun _ => None) (ph := fun _ => TIdle); auto.
+    all: try (repeat split; auto; intros t H; exfalso; apply H; reflexivity).
   Qed.
 
   (** ... and on histories that come with linearization points: linearizable to the sequential set *)
